@@ -18,7 +18,7 @@ GEN = os.path.join(COQ, "gen")
 WORK = os.path.join(VERIF, "work")
 EVID = os.path.join(VERIF, "evidence")
 REPLAYS = os.path.join(VERIF, "replays")
-HARNESS = os.path.join(VERIF, "harness")
+HARNESS = os.environ.get("VERIF_HARNESS_DIR", os.path.join(VERIF, "harness"))   # the override is a debugging aid (try a scratch copy)
 
 GOENV = {
     "GOFLAGS": "-mod=vendor", "GOPROXY": "off", "GOSUMDB": "off", "GOTOOLCHAIN": "local",
@@ -82,12 +82,13 @@ HARNESS_GROUPS = {
     "jwt": ["zz_vf_jwt_test.go", "zz_vf_internals_jwt_test.go"],
     "limiter": ["zz_vf_limiter_test.go", "zz_vf_internals_limiter_test.go", "zz_vf_internals_test.go"],
     "discovery": ["zz_vf_discovery_test.go", "zz_vf_internals_discovery_test.go"],
+    "discint": ["zz_vf_internals_discovery_test.go"],
     "misc": ["zz_vf_internals_misc_test.go", "zz_vf_escape_test.go", "zz_vf_cookiesize_test.go", "zz_vf_cryptoparams_test.go"],
 }
 TEST_GROUPS = {
     "TestVF_Cache": ["common", "cache"], "TestVF_CacheRace": ["common", "cache"],
     "TestVF_World": ["common", "world"], "TestVF_Verify": ["common", "world", "verify"],
-    "TestVF_Concurrent": ["common", "world", "concurrent"],
+    "TestVF_Concurrent": ["common", "world", "concurrent", "discint"], "TestVF_ConcurrentTick": ["common", "world", "concurrent", "discint"],
     "TestVF_Jwt": ["common", "jwt"], "TestVF_Limiter": ["common", "limiter"], "TestVF_Discovery": ["common", "discovery"],
     "TestVF_Escape": ["common", "world", "misc"], "TestVF_CookieSize": ["common", "world", "misc"],
     "TestVF_CryptoParams": ["common", "world", "misc"],
